@@ -134,6 +134,7 @@ class BaseEngine(abc.ABC):
             p._clear_regrefs()
         self.run_progs.clear()
         self.samples = None
+        self.samples_dict = None
 
     def print_applied(self, print_fn=print):
         """Print all the Programs run since the backend was initialized.
